@@ -298,28 +298,24 @@ def finishCopy (d : CopyDesc) (h : Heap) (o : Obj) (nb nr : List (Option Nat)) :
   -- the struct was allocated (and counted) first; placing it in the heap needs no budget
   ({ h with objs := upd h.objs h.nobj (some c), nobj := h.nobj + 1 }, some h.nobj)
 
-/-- failure path of a hook: `nr`/`nb` are the slots acquired so far (prefixes of the full lists) -/
-def failPath (n : Nat) (d : CopyDesc) (h : Heap) (o : Obj) (nr nb : List (Option Nat)) : Heap :=
+/-- failure path of a hook: `nr`/`nb` are the slots acquired so far (prefixes of the full lists).
+The `sqfs_drop`s of the failure path get `h.nobj` as fuel, which exceeds every object id. -/
+def failPath (d : CopyDesc) (h : Heap) (o : Obj) (nr nb : List (Option Nat)) : Heap :=
+  -- what the hook has acquired: grabbed or deep-copied references, freshly allocated buffers
+  let acquired := (nr.zip (o.refs.zip d.refs)).filterMap fun (x, (_, act)) => if act = .alias then none else x
+  let freshB := (nb.zip o.bufs).filterMap fun (x, orig) => if x ≠ orig then x else none
   match d.onFail with
   | .unwind =>
     -- drop the deep copies made so far, give back the grabs, free the fresh buffers
-    let acquired := (nr.zip (o.refs.zip d.refs)).filterMap fun (x, (_, act)) => if act = .alias then none else x
-    let h1 := acquired.reverse.foldl (drop n) h
-    let freshB := (nb.zip o.bufs).filterMap fun (x, orig) => if x ≠ orig then x else none
-    freshB.reverse.foldl freeBuf h1
+    freshB.foldl freeBuf (acquired.foldl (drop h.nobj) h)
   | .freeAliased slots =>
-    let acquired := (nr.zip (o.refs.zip d.refs)).filterMap fun (x, (_, act)) => if act = .alias then none else x
-    let h1 := acquired.reverse.foldl (drop n) h
-    let freshB := (nb.zip o.bufs).filterMap fun (x, orig) => if x ≠ orig then x else none
-    let h2 := freshB.reverse.foldl freeBuf h1
+    let h2 := freshB.foldl freeBuf (acquired.foldl (drop h.nobj) h)
     -- the slot whose duplication failed is `o.bufs[nb.length]`
     if nb.length ∈ slots then freeSlot h2 (listGet o.bufs nb.length) else h2
   | .dropSlots =>
     -- after `memcpy` the slots not yet replaced still hold the original's pointers; a failed sub-copy stored NULL
     let slots := nr ++ [none] ++ o.refs.drop (nr.length + 1)
-    let h1 := slots.reverse.foldl (dropOpt n) h
-    let freshB := (nb.zip o.bufs).filterMap fun (x, orig) => if x ≠ orig then x else none
-    freshB.reverse.foldl freeBuf h1
+    freshB.foldl freeBuf (slots.reverse.foldl (dropOpt h.nobj) h)
 
 /-- `sqfs_copy`: `if (orig->copy != NULL) { copy = orig->copy(orig); if (copy) copy->refcount = 1; }` -/
 def sqfsCopy (D : Kind → CopyDesc) : Nat → Heap → Nat → Heap × Option Nat
@@ -341,18 +337,23 @@ def sqfsCopy (D : Kind → CopyDesc) : Nat → Heap → Nat → Heap × Option N
             -- the order of the two groups follows the source (`refsFirst`)
             if d.refsFirst then
               match copyRefs (sqfsCopy D n) h0 o.refs d.refs with
-              | (h1, nr, false) => (failPath n d h1 o nr [], none)
+              | (h1, nr, false) => (failPath d h1 o nr [], none)
               | (h1, nr, true) =>
                 match copyBufs h1 o.bufs d.bufs with
-                | (h2, nb, false) => (failPath n d h2 o nr nb, none)
+                | (h2, nb, false) => (failPath d h2 o nr nb, none)
                 | (h2, nb, true) => finishCopy d h2 o nb nr
             else
               match copyBufs h0 o.bufs d.bufs with
-              | (h1, nb, false) => (failPath n d h1 o [] nb, none)
+              | (h1, nb, false) => (failPath d h1 o [] nb, none)
               | (h1, nb, true) =>
                 match copyRefs (sqfsCopy D n) h1 o.refs d.refs with
-                | (h2, nr, false) => (failPath n d h2 o nr nb, none)
+                | (h2, nr, false) => (failPath d h2 o nr nb, none)
                 | (h2, nr, true) => finishCopy d h2 o nb nr
+
+/-- `sqfs_drop` / `sqfs_copy` as the user calls them: the recursion budget is the number of object ids, which
+bounds the depth of any object graph whose references go to smaller ids (`Sqfs.Proofs.ObjBal`) -/
+def sqfsDrop (h : Heap) (x : Nat) : Heap := drop h.nobj h x
+def sqfsCopyTop (D : Kind → CopyDesc) (h : Heap) (x : Nat) : Heap × Option Nat := sqfsCopy D h.nobj h x
 
 /-! ### constructors (`sqfs_*_create`): header through `sqfs_object_init`, references grabbed -/
 
